@@ -176,7 +176,7 @@ PROPS["C07"] = {
 # ------------------------------------------------------------------ C08
 PROPS["C08"] = {
     "bounds": "three symbolic values per numeric variant (y b n q i u x t d, every payload incl. NaN, signed zeros, infinities) and three cross-variant combinations",
-    "outside": "strings, containers, nested values, OwnedValue, conversions other than u32/i64/f64",
+    "outside": "strings longer than 2 bytes, arrays/dicts/structures, nesting deeper than one level, OwnedValue, conversions other than u32/i64/f64",
     "assumptions": [FMT_STUB, FORGET, "hashing is observed through a deterministic FNV-1a Hasher (Hash must be a function of the bytes fed to the hasher)"],
     "level_text": "Bounded model checking of Value's PartialEq / Ord / Hash / try_clone / value_signature / From / TryFrom on symbolic numeric leaves: all laws over value triples of each numeric variant (every payload; NaN, signed zeros, infinities for floats) and over three cross-variant combinations.",
     "level_note": "numeric leaves only; strings, containers and nested values outside the claim",
@@ -193,7 +193,13 @@ PROPS["C08"] = {
         H("c08_laws_y_x", "thorough", timeout=1800, cost=200, mem_gb=16, bounds="values of two different variants (y_x), all payloads, both argument orders", asserts="laws across variants (never equal, ordering antisymmetric/transitive/consistent)"),
         H("c08_laws_d_t", "thorough", timeout=1800, cost=200, mem_gb=16, bounds="values of two different variants (d_t), all payloads, both argument orders", asserts="laws across variants (never equal, ordering antisymmetric/transitive/consistent)"),
         H("c08_laws_u_d", "quick", timeout=1800, cost=200, mem_gb=16, bounds="values of two different variants (u_d), all payloads, both argument orders", asserts="laws across variants (never equal, ordering antisymmetric/transitive/consistent)"),
-        H("c08_leaf_clone_signature", "thorough", timeout=3000, cost=900, mem_gb=16, bounds="1 symbolic leaf over {u8, i64, f64}; u32/i64/f64 conversions", asserts="try_clone preserves == and signature; T -> Value -> T identity"),
+        H("c08_laws_s", "thorough", timeout=1800, cost=200, mem_gb=16, bounds="three Value::Str of 0..=2 symbolic ASCII bytes", asserts="all laws on strings"),
+        H("c08_laws_s_o", "thorough", timeout=1800, cost=200, mem_gb=16, bounds="Value::Str vs Value::ObjectPath of 0..=2 symbolic bytes", asserts="never equal; ordering laws"),
+        H("c08_laws_nested_u", "thorough", timeout=1800, cost=200, mem_gb=16, bounds="three Value::Value(Value::U32), every payload", asserts="all laws one level deep; signature is 'v'"),
+        H("c08_clone_y", "thorough", timeout=1800, cost=150, mem_gb=16, bounds="Value::U8, every payload", asserts="try_clone preserves == and signature; value_signature == variant's signature"),
+        H("c08_clone_x", "thorough", timeout=1800, cost=150, mem_gb=16, bounds="Value::I64, every payload", asserts="as above"),
+        H("c08_clone_d", "thorough", timeout=1800, cost=150, mem_gb=16, bounds="Value::F64, every non-NaN payload", asserts="as above"),
+        H("c08_conversions", "thorough", timeout=1800, cost=150, mem_gb=16, bounds="every u32 / i64 / f64", asserts="T -> Value -> T identity; wrong target type refused"),
         H("c08_leaf_laws_nan_witness", timeout=900, cost=60, role="witness", bounds="F64(NaN), any NaN payload", asserts="reflexivity and cmp/== consistency (listed finding D7)"),
     ])],
 }
@@ -231,9 +237,7 @@ PROPS["C10"] = {
             [H("c10_%s_len255" % n, "thorough", timeout=2400, cost=400, mem_gb=16,
                bounds="concrete valid content, length symbolic in {255, 256}, unwind 262",
                asserts="accepted iff length <= 255") for n in ["member", "property"]] +
-            [H("c10_%s_deser3" % n, "thorough", timeout=2400, cost=400, mem_gb=16, recursion_bounds=REC1,
-               bounds="well-formed D-Bus STRING with 0..=3 symbolic ASCII text bytes, decoded as the name type (Deserialize route)",
-               asserts="deserialize().is_ok() == spec recogniser") for n in ["member", "unique", "objpath"]] +
+
             [H("c10_%s_value4" % n, "quick", timeout=900, cost=70, 
                bounds="Value::Str of [u8;4] symbolic ASCII, len 0..=4, unwind 7",
                asserts="TryFrom<Value>.is_ok() == spec recogniser") for n in _names if n != "objpath"],
@@ -274,8 +278,10 @@ PROPS["C23"] = {
     "level_text": "Bounded model checking of the percent-coding kernels against the specification's escaping rule: decode accepts exactly the valid escapes with the right bytes; encode escapes exactly the non-optionally-escaped bytes and decodes back to the input.",
     "level_note": "kernel level; whole-address parsing outside the claim",
     "groups": [dict(ZB_INCRATE, in_crate_file="zbus_address.rs", harnesses=[
-        H("c23_decode_percents_exact", timeout=1800, cost=300, bounds="every ASCII string of 0..=4 bytes", asserts="decode_percents == reference percent-decoder (accept/reject and bytes)"),
-        H("c23_encode_percents_roundtrip", timeout=1800, cost=300, bounds="every byte string of 0..=3 bytes, through core::fmt", asserts="escaping rule, and reference-decode(encode(x)) == x"),
+        H("c23_decode_percents_len3", timeout=1800, cost=200, bounds="every ASCII string of 0..=3 bytes", asserts="decode_percents == reference percent-decoder (accept/reject and bytes)"),
+        H("c23_decode_percents_len4", "thorough", timeout=2400, cost=400, mem_gb=16, bounds="every ASCII string of exactly 4 bytes", asserts="decode_percents == reference percent-decoder (accept/reject and bytes)"),
+        H("c23_encode_percents_len2", timeout=1800, cost=250, bounds="every byte string of 0..=2 bytes, through core::fmt", asserts="escaping rule, and reference-decode(encode(x)) == x"),
+        H("c23_encode_percents_len3", "thorough", timeout=2400, cost=700, mem_gb=16, bounds="every byte string of 0..=3 bytes, through core::fmt", asserts="escaping rule, and reference-decode(encode(x)) == x"),
     ])],
 }
 
@@ -318,7 +324,7 @@ NOT_APPLICABLE = {
     "C14": "stream framing: ReadHalf::receive_message is one async function mixing Vec buffers, recvmsg futures and the size arithmetic; design probe: 14 GB at 680 s without finishing; no kernel to isolate",
     "C16": "server handshake: every path reaches `tracing` macros, on which Kani 0.68 aborts with an internal compiler error (catch_unwind through the TLS destructor of tracing's dispatcher); a no-op tracing shim would require patching /repo's workspace manifest",
     "C17": "client handshake: same tracing ICE as C16",
-    "C21": "match-rule matching: attempted with the real MatchRule::matches and harness-controlled stubs for Message::header/message_type (in-crate): both harnesses (path_namespace over 5 symbolic path bytes; exact-match keys) time out at 1800 s (clone and drop glue of the 7-field header per call)",
+    "C21": "match-rule matching: attempted with the real MatchRule::matches and harness-controlled stubs for Message::header/message_type (in-crate): the two multi-cell harnesses (path_namespace over 5 symbolic path bytes; exact-match keys) time out at 1800 s and a single cell (path_namespace='/a' against every valid path of <= 4 bytes) runs out of 20 GB at 1088 s (clone and drop glue of the 7-field header per call)",
     "C22": "match-rule string round trip: Display through core::fmt on symbolic strings plus the winnow rule parser; the cheaper C23 formatter harness already needs 725 s for 3 bytes and the C06 parser experience (1 symbolic byte: out of memory) rules out the parser side",
     "C18": "concurrent sends never interleave: a property of the socket_write mutex under real task interleavings; Kani/CBMC do not model async task concurrency and the send path is behind `tracing` (Kani ICE); no sequential kernel captures it",
     "C19": "method call/reply matching: depends on async-broadcast channels, event-listener, executor tasks and timers under arbitrary schedules; not encodable for a bounded model checker of sequential Rust",
@@ -341,6 +347,6 @@ NOT_APPLICABLE = {
     "C39": "drop / graceful shutdown: lifetime of Arcs across tasks, peer-visible close, executor draining",
 }
 PROPS["PROBE13"] = {"claimed": False, "groups": [dict(ZB_INCRATE, in_crate_file="zbus_message.rs", harnesses=[
-    H("c21_path_namespace", timeout=1800, mem_gb=16), H("c21_exact_keys", timeout=1800, mem_gb=16)])]}
+    H("c21_ns_a", timeout=2400, mem_gb=20)])]}
 PROPS["PROBE14"] = {"claimed": False, "groups": [dict(ZB_INCRATE, in_crate_file="zbus_header.rs", harnesses=[
     H("c12_primary_header_total", timeout=3600, mem_gb=30, recursion_bounds=REC1)])]}
